@@ -116,7 +116,7 @@ fn one_case(sink: &mut Sink, rng: &mut Rng, max_depth: u8, cells: &[VC], from: u
 }
 
 pub fn run(sink: &mut Sink, rng: &mut Rng, thorough: bool) {
-  let n = if thorough { 6000 } else { 500 };
+  let n = if thorough { 20000 } else { 500 };
   for i in 0..n {
     let max_depth = 1 + rng.below(2) as u8; // 1 or 2
     let scale = 1u64 << (2 * max_depth as u32);
